@@ -6,7 +6,9 @@
    filter_interactions / clear_relationships; failing operations are kept in the list, with whatever
    they had already changed); `build` is DatasetBuilder.build() + MatrixRelationshipSet.__init__ (sort by
    (user number, item number), value_counts -> row sizes shifted by one -> cumulative sum).  Identifiers
-   are integers (order-isomorphic image of the real identifiers).  `s_run` is the same operation list
+   are integers (order-isomorphic image of the real identifiers); an attribute value is `Some z` or `None`
+   (missing: Arrow null / NaN / NaT), a batch names the attribute columns it carries, time bounds are
+   rationals.  `s_run` is the same operation list
    read on identifiers only -- no numbers anywhere -- and `k_recs` of it are the surviving input records.
    `dec_with d g r` = (user id, item id, g r) of the stored record r under the built vocabularies.
 
@@ -23,11 +25,15 @@
    * "entities without interactions appear as empty rows or columns with zero counts" -> inactive_empty
    * "repeats are rejected when the dataset is built"                               -> repeats_rejected
    * Arrow's sort is a contract; the model's sort is proved                         -> sort_contract
+   * "no record is lost": a batch contributes exactly its rows with known identifiers, whatever their
+     attribute values (missing or not)                                              -> batch_keeps_known_rows
+   * filter_interactions(min_time <= t < max_time), rational bounds, missing times   -> time_window_exact
+   * "per-user/per-item statistics": record count and rating count by presence       -> stats_counts
    Not theorems (correspondence only): the SciPy/PyTorch constructors, the group_by statistics other
    than the counts (mean, first/last time), Arrow's join/unique/value_counts kernels themselves. *)
-From Coq Require Import ZArith List Bool Arith Sorting.Sorted Sorting.Permutation.
+From Coq Require Import ZArith QArith Qround List Bool Arith Sorting.Sorted Sorting.Permutation.
 From LK Require Import Model.C01_dataset Proofs.C01_vocab Proofs.C01_sort Proofs.C01_rowptr Proofs.C01_refine1
-  Proofs.C01_refine2 Proofs.C01_views Proofs.C01_main.
+  Proofs.C01_refine2 Proofs.C01_views Proofs.C01_main Proofs.C01_attrs.
 Import ListNotations.
 Open Scope Z_scope.
 
@@ -118,13 +124,13 @@ Proof. exact inactive_empty_l. Qed.
 Print Assumptions inactive_empty.
 
 Theorem repeats_rejected :
-  (forall s st rows p us unums is_ inums,
+  (forall s st rows cols p us unums is_ inums,
      b_repeats st = RForbidden ->
      link_class (b_users st) (map uid_of rows) p = Ok (us, unums) ->
      link_class (b_items st) (map iid_of rows) p = Ok (is_, inums) ->
      ~ NoDup (map fst (b_table st ++ zip_recs unums inums rows)) ->
-     snd (step s st (AddInteractions rows p)) = Some EData /\
-     b_table (fst (step s st (AddInteractions rows p))) = b_table st) /\
+     snd (step s st (AddInteractions rows cols p)) = Some EData /\
+     b_table (fst (step s st (AddInteractions rows cols p))) = b_table st) /\
   (forall st, b_repeats st = RPresent -> build st = Err ENotImpl).
 Proof. exact repeats_rejected_l. Qed.
 Print Assumptions repeats_rejected.
@@ -133,18 +139,64 @@ Theorem sort_contract : forall l, StronglySorted rle (sort_recs l) /\ Permutatio
 Proof. exact sort_contract_l. Qed.
 Print Assumptions sort_contract.
 
+(* the records a batch contributes (under any policy that lets it through) are exactly its rows whose user
+   and item identifiers are known, in order, attribute lists untouched -- whatever the attribute values
+   are, missing ones included: the only mask is the validity of the two resolved numbers *)
+Theorem batch_keeps_known_rows : forall users items rows,
+  map (dec users items) (zip_recs (map (resolve users) (map uid_of rows)) (map (resolve items) (map iid_of rows)) rows)
+  = filter (fun r => known users (uid_of r) && known items (iid_of r)) rows.
+Proof. exact (fun u i rows => proj1 (zip_recs_dec u i rows)). Qed.
+Print Assumptions batch_keeps_known_rows.
+
+(* the time window of filter_interactions on an integer timestamp with rational bounds: kept iff
+   min_time <= t < max_time in Q; equivalently the bounds are rounded UP to integers (truncating a bound
+   keeps / loses the records at its floor: second part); a record without timestamp is outside every
+   window, and without bounds everything is kept *)
+Theorem time_window_exact :
+  (forall lo hi z, in_window lo hi (Some z) = true <->
+     (forall l, lo = Some l -> (l <= inject_Z z)%Q) /\ (forall h, hi = Some h -> (inject_Z z < h)%Q)) /\
+  (forall lo hi z, in_window lo hi (Some z) =
+     match lo with Some l => Qceiling l <=? z | None => true end && match hi with Some h => z <? Qceiling h | None => true end) /\
+  (forall lo hi, (lo <> None \/ hi <> None) -> in_window lo hi None = false) /\
+  (forall t, in_window None None t = true).
+Proof. exact (conj in_window_spec_l (conj in_window_ceiling_l (conj in_window_null_l in_window_open_l))). Qed.
+Print Assumptions time_window_exact.
+(* the records at the floor of a fractional bound are where rounding the bound down goes wrong *)
+Example truncated_bound_differs :
+  in_window (Some (21 # 2)%Q) None (Some 10) = false /\ in_window (Some (inject_Z (Qfloor (21 # 2)))) None (Some 10) = true /\
+  in_window None (Some (21 # 2)%Q) (Some 10) = true /\ in_window None (Some (inject_Z (Qfloor (21 # 2)))) (Some 10) = false.
+Proof. exact truncation_differs_l. Qed.
+
+(* statistics of a built dataset, per user and per item number n: record_count is the number of surviving
+   input records of that entity and rating_count the number of those that carry a rating (never more) *)
+Theorem stats_counts : forall s ar ops d c,
+  build (final s ar ops) = Ok d ->
+  let spec := k_recs (s_run s (s_init ar) ops) in
+  forall n, (n < length (cls_vocab c d))%nat ->
+    let e := term (cls_vocab c d) n in
+    st_records (stats_of s c d n) = length (filter (fun r => Z.eqb (key_id c r) e) spec) /\
+    st_ratings (stats_of s c d n) = length (filter (fun r => Z.eqb (key_id c r) e && has_value (rating2_of (snd r))) spec) /\
+    (st_ratings (stats_of s c d n) <= st_records (stats_of s c d n))%nat.
+Proof. exact stats_counts_l. Qed.
+Print Assumptions stats_counts.
+
 (* non-vacuity: identifiers not in ascending order of arrival (ranks 4, 1, 3 then 0, 2), a late-added
-   user, an unknown user filtered out of a batch, a pair removed by a filter, an inactive user and item *)
+   user, an unknown user filtered out of a batch, a pair removed by a filter, a record with a missing
+   rating under the filter policy, a later batch without rating column, a time window with fractional
+   bounds and records at the floor of each bound, an inactive user and item *)
 Example c01_nonvacuous :
-  let s := {| s_rating := true; s_ts := false; s_extra := false |} in
+  let s := {| s_rating := true; s_ts := true; s_extra := false |} in
   let ops := [AddEntities User [4; 1; 3] DupError; AddEntities Item [7; 5] DupError;
-              AddInteractions [(3, 5, [6]); (1, 7, [2]); (9, 5, [8]); (1, 5, [4])] MFilter;
+              AddInteractions [(3, 5, [Some 6; Some 10]); (1, 7, [Some 2; Some 11]); (9, 5, [Some 8; Some 12]); (1, 5, [None; Some 12])]
+                              [true; true] MFilter;
               AddEntities User [0; 2; 4] DupUpdate;
               FilterInteractions None None (Some (RemPairs [(1, 7)]));
-              AddInteractions [(0, 7, [3])] MError] in
+              AddInteractions [(0, 7, [None; Some 13]); (2, 5, [None; Some 9]); (4, 7, [None; None])] [false; true] MError;
+              FilterInteractions (Some (19 # 2)%Q) (Some (27 # 2)%Q) None] in
   exists d, build (final s false ops) = Ok d /\
     d_users d = [1; 3; 4; 0; 2] /\ d_items d = [5; 7] /\
     d_ptrs d = [0; 1; 2; 2; 3; 3]%nat /\
-    k_recs (s_run s (s_init false) ops) = [(3, 5, [6]); (1, 5, [4]); (0, 7, [3])] /\
-    view_table_ids d = [(1, 5, [4]); (3, 5, [6]); (0, 7, [3])].
+    k_recs (s_run s (s_init false) ops) = [(3, 5, [Some 6; Some 10]); (1, 5, [None; Some 12]); (0, 7, [None; Some 13])] /\
+    view_table_ids d = [(1, 5, [None; Some 12]); (3, 5, [Some 6; Some 10]); (0, 7, [None; Some 13])] /\
+    st_records (stats_of s Item d 0) = 2%nat /\ st_ratings (stats_of s Item d 0) = 1%nat.
 Proof. cbv zeta. eexists. split; [vm_compute; reflexivity|]. vm_compute. repeat split; reflexivity. Qed.
